@@ -811,6 +811,7 @@ func c13DoneCheck(c *Check, d *dasCtx) {
 	sort.Strings(in)
 	c.Note("inputs of checkDone: %v", in)
 	c.Floor("R13.3", "inputs of checkDone", len(inputs), 4)
+	c13DonePredicate(c, cd)
 	// callsDone[f]: every path through f to a return passes checkDone
 	callsDone := func(f *ssa.Function) bool {
 		bar := blocksWhere(f, func(ins ssa.Instruction) bool {
@@ -1034,5 +1035,91 @@ func c13Attempts(c *Check, d *dasCtx) {
 	for _, r := range returnsOf(nr) {
 		sl := backSlice(r.Results[0], SliceOpt{})
 		c.Ob("R13.4", fmt.Sprintf("nextRetry return@block%d", r.Block().Index), sl.Vals[nr.Params[1]], p.Pos(r.Pos()), "returned attempt derives from the previous attempt parameter")
+	}
+}
+
+// c13DonePredicate: catch-up is declared done (the flag is set / the channel closed)
+// only across: nothing in progress, nothing failed, and the cursor STRICTLY past the
+// network head. `next` is the first height not yet handed out, so next == head means
+// the head itself is still to be sampled; a non-strict comparison declares catch-up
+// done one height early.
+func c13DonePredicate(c *Check, cd *ssa.Function) {
+	p := c.P
+	// the "done" action: CompareAndSwap(false, true) on catchUpDone / close of the channel
+	done := blocksWhere(cd, func(ins ssa.Instruction) bool {
+		g, ok := ins.(*ssa.Call)
+		if !ok {
+			return false
+		}
+		if bi, ok := g.Call.Value.(*ssa.Builtin); ok && bi.Name() == "close" {
+			return true
+		}
+		o := calleeObj(&g.Call)
+		return o != nil && o.Name() == "CompareAndSwap"
+	})
+	c.Floor("R13.3", "done actions in checkDone", len(done), 1)
+	lenZero := func(field string) EdgeCut {
+		return func(b *ssa.BasicBlock, ifi *ssa.If) (bool, bool) {
+			a := stripNot(ifi.Cond)
+			bo, ok := a.Base.(*ssa.BinOp)
+			if !ok || (bo.Op != token.EQL && bo.Op != token.NEQ) || !isLenCall(bo.X) {
+				return false, false
+			}
+			k, ok := bo.Y.(*ssa.Const)
+			if !ok || k.Value == nil || k.Int64() != 0 || !backSlice(bo.X, SliceOpt{CallArgs: true}).HasFieldNamed("coordinatorState", field) {
+				return false, false
+			}
+			isZeroOnTrue := (bo.Op == token.EQL) != a.Neg
+			return isZeroOnTrue, !isZeroOnTrue
+		}
+	}
+	strictlyPast := func(b *ssa.BasicBlock, ifi *ssa.If) (bool, bool) {
+		a := stripNot(ifi.Cond)
+		bo, ok := a.Base.(*ssa.BinOp)
+		if !ok {
+			return false, false
+		}
+		isF := func(v ssa.Value, name string) bool {
+			return backSlice(v, SliceOpt{}).HasFieldNamed("coordinatorState", name)
+		}
+		plusOne := func(v ssa.Value, name string) bool {
+			ad, ok := v.(*ssa.BinOp)
+			if !ok || ad.Op != token.ADD {
+				return false
+			}
+			k, ok := ad.Y.(*ssa.Const)
+			return ok && k.Value != nil && k.Int64() == 1 && isF(ad.X, name)
+		}
+		pure := func(v ssa.Value, name string) bool {
+			_, isBin := v.(*ssa.BinOp)
+			return !isBin && isF(v, name)
+		}
+		strict := false
+		switch bo.Op {
+		case token.GTR:
+			strict = pure(bo.X, "next") && pure(bo.Y, "networkHead")
+		case token.LSS:
+			strict = pure(bo.X, "networkHead") && pure(bo.Y, "next")
+		case token.GEQ:
+			strict = pure(bo.X, "next") && plusOne(bo.Y, "networkHead")
+		case token.LEQ:
+			strict = plusOne(bo.X, "networkHead") && pure(bo.Y, "next")
+		}
+		if !strict {
+			return false, false
+		}
+		return !a.Neg, a.Neg
+	}
+	for _, g := range []struct {
+		name string
+		cut  EdgeCut
+		why  string
+	}{
+		{"nothing in progress", lenZero("inProgress"), "len(inProgress) == 0"},
+		{"nothing failed", lenZero("failed"), "len(failed) == 0"},
+		{"cursor strictly past the head", strictlyPast, "next > networkHead (strict: next is the first height not yet handed out)"},
+	} {
+		res := gateWalk(p, cd, done, g.cut, nil)
+		c.Ob("R13.3", "done only if "+g.name, !res.Reached, p.Pos(cd.Pos()), "catch-up is declared done only across "+g.why, res.Witness...)
 	}
 }
